@@ -14,8 +14,8 @@ PROOF_MODULES = []   # C28 files are not in coq/_CoqProject yet: the .vo files a
 OBLIGATIONS = [
     "C28/P_keyless_equiv_eq.v", "C28/P_not_sound.v", "C28/P_and_sound.v", "C28/P_or_sound.v",
     "C28/P_nand_sound.v", "C28/P_nor_sound.v", "C28/P_xor_sound.v", "C28/P_xnor_sound.v",
-    "C28/P_subs_sound.v", "C28/P_piecewise_sound.v", "C28/P_contains_simplify_sound.v",
-    "C28/P_relational_sound.v", "C28/P_closed.v", "C28/P_nonvacuous.v",
+    "C28/P_and_or_any_fuel.v", "C28/P_subs_sound.v", "C28/P_piecewise_sound.v",
+    "C28/P_contains_simplify_sound.v", "C28/P_relational_sound.v", "C28/P_total.v", "C28/P_nonvacuous.v",
 ]
 
 SYMS = ["x", "y", "z"]
@@ -215,6 +215,14 @@ CORPUS = [
     "(and (contains x (fset 0 1 2)) (or (lt x 1) (eq x y)))", "(and (contains x (fset 0 1 2)) (not (contains x (fset 1 2))))",
     "(and (contains x (fset 0 1 2)) (xor (lt x 1) (eq x 2)))", "(and (contains x (fset 0 1)) (gt x 5))", "(and (contains x (fset 0 y)) (lt x y) (lt y 0))",
     "(nand (contains x (fset 0 1 2)) (lt x 2))", "(and (contains x (fset 0 1 2)) (contains y (fset 0 1 2)) (lt x y))",
+    # the first qualifying Contains decides (break without a number in the set); nested simplifications
+    "(and (contains x (fset y z)) (contains x (fset 1 2)) (lt x 2))", "(and (contains y (fset x z)) (contains y (fset 1 2)) (lt y 2))",
+    "(and (contains z (fset x y)) (contains z (fset 1 2)) (lt z 2))", "(and (contains x (fset y)) (contains y (fset 1 2)) (lt y 2))",
+    "(and (contains x (fset 0 1 2)) (contains y (fset 0 1 2)) (lt x y) (ne x 1))", "(and (contains x (fset 0 1 2 y)) (contains y (fset 0 1)) (lt x y))",
+    "(and (contains x (fset 0 1 2)) (or (contains y (fset 0 x)) (lt x 1)))",
+    "(and (contains x (fset 0 1 2)) (or (and (contains y (fset 0 x)) (lt y 1)) (lt x 1)))",
+    "(and (contains x (fset 0 1 2)) (xor (contains y (fset 0 x)) (lt x 1) (eq x y)))",
+    "(and (contains x (fset 0 1 2)) (not (and (contains y (fset 0 x)) (lt y 1))))",
     # piecewise pruning
     "(pw x (lt x 0) y (lt x 0) 3 true 4 true)", "(pw x false y false)", "(pw x true)", "(pw x (lt x 0) y (ge x 0))", "(pw 1 false 2 (lt x y) 3 (lt x y) 4 (eq x y))",
     # contains()
@@ -222,8 +230,40 @@ CORPUS = [
     "(contains 1 (fset 0 1 x))", "(contains 3 (fset 0 1 x y))", "(contains 3 (fset 0 1))", "(contains x (fset x 1))", "(contains x (interval 1 2 0 1))", "(contains 1 emptyset)",
     # relational constructors, subs
     "(eq x x)", "(eq y x)", "(ne y x)", "(lt x x)", "(le x x)", "(ge 1 2)", "(lt (q 1 2) 1)", "(eq 1 x)",
+    "(lt I 1)", "(le nan x)", "(lt true x)", "(ge zoo x)", "(gt x (c 1 2 1 3))",
     "(subs (and (lt x 3) (contains x (interval 1 2 0 1))) x (q 3 2))", "(subs (or (lt x y) (eq x 1)) x y)", "(subs (xor (lt x y) (eq x 1) (contains y (fset x 0))) x 1)",
 ]
+
+
+PALETTE = [
+    "(lt x 1)", "(ge x 1)", "(le x 1)", "(gt x 1)", "(eq x 1)", "(ne x 1)", "(eq x y)", "(ne x y)", "(lt x y)",
+    "(contains x (fset 0 1 2))", "(contains x (fset 1 y))", "(not (contains x (fset 0 1 2)))",
+    "(contains x (interval 0 1 0 1))", "true", "false", "(and (lt x 1) (lt y 1))", "(or (lt x 1) (eq x y))",
+    "(xor (lt x 1) (eq x y))",
+]
+
+
+def exhaustive_small(tier):
+    """every pair (quick: and/xor; thorough: all six operations) and, in the thorough tier, every
+    triple (and/or/xor) over a fixed palette that contains complementary literals, equal keys,
+    nested same-operation containers, constants and FiniteSet domains"""
+    out = []
+    ops2 = ["and", "xor"] if tier == "quick" else BOOL_OPS
+    for op in ops2:
+        for a in PALETTE:
+            for b in PALETTE:
+                out.append("(%s %s %s)" % (op, a, b))
+    if tier != "quick":
+        for op in ("and", "or", "xor"):
+            for a in PALETTE:
+                for b in PALETTE:
+                    for c in PALETTE:
+                        out.append("(%s %s %s %s)" % (op, a, b, c))
+        for a in PALETTE:
+            out.append("(not %s)" % a)
+            for v in ("0", "1", "2", "y", "(q 1 2)"):
+                out.append("(subs %s x %s)" % (a, v))
+    return out
 
 
 # ------------------------------------------------------------------ running
@@ -317,11 +357,11 @@ def builds(ctx):
 
 
 def run(ctx):
-    ctx.gate(["Base", "Expr", "C28"])
+    ctx.gate(["Base", "Gen", "C28"])
     ctx.prove(PROOF_MODULES, OBLIGATIONS)
     drv, model = builds(ctx)
-    ncases = 2500 if ctx.tier == "quick" else 60000
-    cases = list(CORPUS) + [gen_case(ctx.rng, ctx.tier) for _ in range(ncases)]
+    ncases = 2000 if ctx.tier == "quick" else 60000
+    cases = list(CORPUS) + exhaustive_small(ctx.tier) + [gen_case(ctx.rng, ctx.tier) for _ in range(ncases)]
     explore(ctx, drv, model, cases)
     if ctx.broken and not ctx.violations:
         # a proof or the tie broke: search harder for a concrete failing formula
@@ -333,7 +373,8 @@ def run(ctx):
         "containers and FiniteSet domains collide); evaluations = cases; truth_table_rows = assignments "
         "evaluated by the oracle (complete up to order type); a case is non-trivial when the operation "
         "really simplified (result has fewer atoms than its arguments, is a constant, or went through "
-        "logical_not) and the arguments have >= 2 atoms; distinct = distinct recipe strings")
+        "logical_not) and the arguments have >= 2 atoms; distinct = distinct recipe strings; besides the "
+        "generated cases, every pair (thorough: also every triple) over a fixed 18-formula palette is run")
     ctx.assumptions += [
         "std::set<RCP<const Basic>, RCPBasicKeyLess> (red-black tree) is modelled as a list kept sorted by the modelled comparator; find/insert/erase walk it linearly (same result whenever the comparator is a strict weak order on the keys present; P_keyless_equiv_eq shows that on the fragment incomparable keys are identical)",
         "the memo table `visited` of XReplaceVisitor is outside the model (apply is a function of the subtree); its pointer-identity test `a == x.get_arg1()` is modelled as eq of the subtrees (create is idempotent on library-built relationals/Contains)",
